@@ -38,7 +38,7 @@ PROPS = {
     ),
 }
 
-ENGINES = {'e2e': vlib.e2e_engine, 'store': vlib.store_engine, 'atomic': vlib.atomic_engine, 'encrypt': vlib.encrypt_engine, 'swr': vlib.swr_engine, 'conc': vlib.conc_engine}
+ENGINES = {'e2e': vlib.e2e_engine, 'store': vlib.store_engine, 'atomic': vlib.atomic_engine, 'encrypt': vlib.encrypt_engine, 'swr': vlib.swr_engine, 'conc': vlib.conc_engine, 'bytes': vlib.bytes_engine}
 
 
 def _e2e(profiles, monitors, projection, nq=1500, nt=20000, extra=None):
@@ -112,3 +112,11 @@ PROPS['C16'] = dict(engines=['conc'], conc=dict(n_quick=400, n_thorough=8000, ra
                           'detector, each response checked for resource, variant, body/ETag/generation consistency and for not being touched after return'),
                     assumptions=['the Go race detector reports the races of the executions it observes (not all possible ones)',
                                  'store operations are atomic (memcache mutex; fscache: C15)'])
+
+PROPS['C05']['engines'] = ['e2e', 'bytes']
+PROPS['C05']['rule'] = (E2E_RULE + '; plus real HTTP messages over the loopback interface: a raw TCP origin writing Content-Length, chunked (with and without trailer), close-delimited and HTTP/1.0 '
+                        'framings byte by byte, and an HTTP/2 (TLS) origin with and without declared length; bodies: empty, CR/LF runs, NUL, text that looks like a status line, a chunk, a '
+                        'stored-entry metadata line, random bytes of 17..65536 (thorough: 1 MiB); header corpora with repeated, empty, long, non-ASCII, oddly cased fields; hop-by-hop corpora incl. '
+                        'fields named by Connection; on memcache, fscache and encrypted fscache; each case: GET (MISS) then GET (HIT), both compared with the response as net/http delivered it to the cache; '
+                        'every stored entry is parsed by the extracted reader and by Go')
+PROPS['C05']['assumptions'] = ['net/http (http.Transport, ReadResponse, DumpResponse) delivers and frames messages as it documents; the reference for a replay is the response as net/http handed it to the cache']
